@@ -29,6 +29,11 @@ THEOREMS = ['GV.Flood.' + t for t in (
     'filled_connected', 'filled_flood_exact_of', 'filled_flood_exact', 'filled_flood_exact_computable',
     'convex_exit', 'convex_parityConst', 'convex_filledMeets_iff', 'convex_filled_flood_exact',
     'convex_filled_flood_exact_set',
+    # ... and the axis-parallel form of ParityConst proved for EVERY ring => unconditional exactness for arbitrary
+    # (non-convex, self-intersecting) even-odd filled rings
+    'affine_same_sign', 'vert_up', 'vert_edge', 'insideEO_vert', 'horiz_edge', 'insideEO_horiz',
+    'axis_parityConst', 'ring_filledTouchesC_iff', 'ring_filled_connected', 'ring_filled_flood_exact',
+    'ring_filled_flood_exact_set',
 )]
 
 KEY_F12B = 'NiemeyerHasher._hash_polygon/curved-sliver'
